@@ -41,32 +41,86 @@ AllQuiet == /\ \A id \in CallIds : call[id].pc \in {"new", "done"}
             /\ \E id \in CallIds : call[id].pc = "done"
             /\ \A id \in CallIds : srv[id].st # "run"
 
+(* One wrapper per action of RpcCalls, so that TLC reports coverage per action. *)
+Go == ~Finished
+Same == UNCHANGED <<hist, budget>>
+IDeadlinePass(id) == Go /\ DeadlinePass(id) /\ Same
+ICtxDeadline(id) == Go /\ CtxDeadline(id) /\ Same
+ISetupExpired(id) == Go /\ SetupExpired(id) /\ Same
+ISetupCall(id) == Go /\ SetupCall(id) /\ Same
+ICancelCall(id) == Go /\ CancelCall(id) /\ Same
+IAcquireMem(id) == Go /\ AcquireMem(id) /\ Same
+IRecvAbort(id) == Go /\ RecvAbort(id) /\ Same
+IGetWorker(id) == Go /\ GetWorker(id) /\ Same
+IHandlerSkipExpired(id) == Go /\ HandlerSkipExpired(id) /\ Same
+ISendResponse(id) == Go /\ SendResponse(id) /\ Same
+IOrphanRecv(id) == Go /\ OrphanRecv(id) /\ Same
+IOrphanDrop(id) == Go /\ OrphanDrop(id) /\ Same
+ISendFromWriteQ(c) == Go /\ SendFromWriteQ(c) /\ Same
+IClientRecv(c) == Go /\ ClientRecv(c) /\ Same
+IConnDrop(c) == Go /\ ConnDrop(c) /\ Same
+IMassCancel(c) == Go /\ MassCancel(c) /\ Same
+IConnectFail(c) == Go /\ ConnectFail(c) /\ Same
+IConnect(c) == Go /\ Connect(c) /\ Same
+IRecvHdr(c) == Go /\ RecvHdr(c) /\ Same
+IServerSend(c) == Go /\ ServerSend(c) /\ Same
+IServerSendLetsFin(c) == Go /\ ServerSendLetsFin(c) /\ Same
+ISrvConnStop(c) == Go /\ SrvConnStop(c) /\ Same
+
+VInvoke(id, t, f) ==
+  /\ Go /\ (t => id \in TmoCalls) /\ (f => id \in FFCalls)
+  /\ Invoke(id, t, f) /\ Ev([ev |-> "start", id |-> id, cl |-> MCOwnerOf(id), tmo |-> t, ff |-> f]) /\ UNCHANGED budget
+VCtxCancel(id) == Go /\ id \in CancelCalls /\ call[id].ctx = "live" /\ CtxCancel(id) /\ Ev(E1("cancel", id)) /\ UNCHANGED budget
+VReturnResult(id) == Go /\ ReturnResult(id) /\ Ev([ev |-> "ret", id |-> id, res |-> call'[id].rv.k, got |-> call'[id].rv.from]) /\ UNCHANGED budget
+VReturnPending(id) == Go /\ ReturnPending(id) /\ Ev([ev |-> "ret", id |-> id, res |-> call'[id].rv.k, got |-> call'[id].rv.from]) /\ UNCHANGED budget
+VHandlerEnter(id) == Go /\ HandlerEnter(id) /\ Ev(E1("enter", id)) /\ UNCHANGED budget
+VHandlerExit(id, o) == Go /\ HandlerExit(id, o) /\ Ev([ev |-> "exit", id |-> id, out |-> o]) /\ UNCHANGED budget
+VCliCloseBegin(c) == /\ Go /\ budget.close < MaxCloses /\ CliCloseBegin(c) /\ Ev([ev |-> "close", side |-> c])
+                     /\ budget' = [budget EXCEPT !.close = @ + 1]
+VCut(c) == /\ Go /\ budget.cut < MaxCuts /\ Cut(c) /\ Ev([ev |-> "cut", cl |-> c])
+           /\ budget' = [budget EXCEPT !.cut = @ + 1]
+VSetProxy(c, m) == /\ Go /\ budget.proxy < MaxProxy /\ proxy[c] # m /\ SetProxy(c, m)
+                   /\ Ev([ev |-> "proxy", cl |-> c, mode |-> m])
+                   /\ budget' = [budget EXCEPT !.proxy = @ + 1]
+VSrvShutdown == Go /\ AllowShutdown /\ SrvShutdown /\ Ev([ev |-> "shutdown", side |-> "server"]) /\ UNCHANGED budget
+VSrvCloseBegin == /\ Go /\ budget.close < MaxCloses /\ SrvCloseBegin /\ Ev([ev |-> "close", side |-> "server"])
+                  /\ budget' = [budget EXCEPT !.close = @ + 1]
+GenFinish == /\ Go /\ GenMode /\ AllQuiet
+             /\ budget' = [budget EXCEPT !.fin = TRUE]
+             /\ hist' = hist
+             /\ UNCHANGED vars
+
 MCNext ==
-  /\ ~Finished
-  /\ \/ Internal /\ UNCHANGED <<hist, budget>>
-     \/ \E id \in CallIds : \E t, f \in BOOLEAN :
-          /\ t => id \in TmoCalls
-          /\ f => id \in FFCalls
-          /\ Invoke(id, t, f) /\ Ev([ev |-> "start", id |-> id, cl |-> MCOwnerOf(id), tmo |-> t, ff |-> f]) /\ UNCHANGED budget
-     \/ \E id \in CallIds : id \in CancelCalls /\ CtxCancel(id) /\ call[id].ctx = "live" /\ Ev(E1("cancel", id)) /\ UNCHANGED budget
-     \/ \E id \in CallIds : Return(id) /\ Ev([ev |-> "ret", id |-> id, res |-> call'[id].rv.k, got |-> call'[id].rv.from]) /\ UNCHANGED budget
-     \/ \E id \in CallIds : HandlerEnter(id) /\ Ev(E1("enter", id)) /\ UNCHANGED budget
-     \/ \E id \in CallIds : \E o \in Outs : HandlerExit(id, o) /\ Ev([ev |-> "exit", id |-> id, out |-> o]) /\ UNCHANGED budget
-     \/ \E c \in Clients : /\ budget.close < MaxCloses /\ CliCloseBegin(c) /\ Ev([ev |-> "close", side |-> c])
-                           /\ budget' = [budget EXCEPT !.close = @ + 1]
-     \/ \E c \in Clients : /\ budget.cut < MaxCuts /\ Cut(c) /\ Ev([ev |-> "cut", cl |-> c])
-                           /\ budget' = [budget EXCEPT !.cut = @ + 1]
-     \/ \E c \in Clients : \E m \in {"pass", "refuse"} :
-                           /\ budget.proxy < MaxProxy /\ proxy[c] # m /\ SetProxy(c, m)
-                           /\ Ev([ev |-> "proxy", cl |-> c, mode |-> m])
-                           /\ budget' = [budget EXCEPT !.proxy = @ + 1]
-     \/ AllowShutdown /\ SrvShutdown /\ Ev([ev |-> "shutdown", side |-> "server"]) /\ UNCHANGED budget
-     \/ /\ budget.close < MaxCloses /\ SrvCloseBegin /\ Ev([ev |-> "close", side |-> "server"])
-        /\ budget' = [budget EXCEPT !.close = @ + 1]
-     \/ /\ GenMode /\ AllQuiet
-        /\ budget' = [budget EXCEPT !.fin = TRUE]
-        /\ hist' = hist
-        /\ UNCHANGED vars
+  \/ \E id \in CallIds :
+        \/ IDeadlinePass(id)
+        \/ ICtxDeadline(id)
+        \/ ISetupExpired(id)
+        \/ ISetupCall(id)
+        \/ ICancelCall(id)
+        \/ IAcquireMem(id)
+        \/ IRecvAbort(id)
+        \/ IGetWorker(id)
+        \/ IHandlerSkipExpired(id)
+        \/ ISendResponse(id)
+        \/ IOrphanRecv(id)
+        \/ IOrphanDrop(id)
+        \/ \E t, f \in BOOLEAN : VInvoke(id, t, f)
+        \/ VCtxCancel(id) \/ VReturnResult(id) \/ VReturnPending(id) \/ VHandlerEnter(id)
+        \/ \E o \in Outs : VHandlerExit(id, o)
+  \/ \E c \in Clients :
+        \/ ISendFromWriteQ(c)
+        \/ IClientRecv(c)
+        \/ IConnDrop(c)
+        \/ IMassCancel(c)
+        \/ IConnectFail(c)
+        \/ IConnect(c)
+        \/ IRecvHdr(c)
+        \/ IServerSend(c)
+        \/ IServerSendLetsFin(c)
+        \/ ISrvConnStop(c)
+        \/ VCliCloseBegin(c) \/ VCut(c)
+        \/ \E m \in {"pass", "refuse"} : VSetProxy(c, m)
+  \/ VSrvShutdown \/ VSrvCloseBegin \/ GenFinish
 
 MCSpec == MCInit /\ [][MCNext]_mcvars /\ Fairness
 
